@@ -247,6 +247,10 @@ class Scheduler:
         """The running thread blocks.  Returns True if woken by wake(), False on timeout."""
         if self.aborting:
             raise Abort
+        if deadline is not None and deadline <= self.now:
+            # a wait whose time is already up: it times out at once, but others may run first
+            self.yield_point(("expired-wait", desc if isinstance(desc, str) else desc[0]))
+            return False
         cur = self.current
         cur.state = "blocked"
         cur.deadline = deadline
